@@ -496,5 +496,50 @@ CASES += [
          edits=[(LB, '''                drop(cur);
                 drop(f);
                 return prev;''', '''                return prev;''')]),
+    # a by-value `current` (a Guard, an Arc: its destructor may be the pointee's) destroyed while the count taken out of the storage
+    # is still a raw pointer
+    dict(name='m-cas-drop-current-before-dec', kind='mutant', props=['C18', 'C05'], expect=['C18'],
+         edits=[(H, '''                T::dec(old.as_ptr());
+                // See above.
+                drop(current);''', '''                drop(current);
+                T::dec(old.as_ptr());''')]),
+    # the helper of rcu takes the guard of the running attempt by value: it is destroyed after the answer sits in the helper's return place
+    dict(name='m-rcu-helper-by-value', kind='mutant', props=['C18', 'C06'], expect=['C18'],
+         edits=[(LB, '''            let prev = self.compare_and_swap(&*cur, new);
+            let swapped = ptr_eq(&*cur, &*prev);
+            if swapped {
+                let prev = Guard::into_inner(prev);
+                // Arbitrary destructors (the closure may own things) run before the result goes
+                // out: a return value is not released if something panics while the function
+                // is being left.
+                drop(cur);
+                drop(f);
+                return prev;
+            } else {
+                cur = prev;
+            }''', '''            cur = match self.rcu_attempt(cur, new) {
+                Ok(prev) => {
+                    drop(f);
+                    return prev;
+                }
+                Err(seen) => seen,
+            };'''),
+                (LB, '''    /// Provides an access to an up to date projection of the carried data.
+    ///
+    /// # Motivation''', '''    fn rcu_attempt(&self, cur: Guard<T, S>, new: T) -> Result<T, Guard<T, S>>
+    where
+        S: CaS<T>,
+    {
+        let prev = self.compare_and_swap(&*cur, new);
+        if ptr_eq(&*cur, &*prev) {
+            Ok(Guard::into_inner(prev))
+        } else {
+            Err(prev)
+        }
+    }
+
+    /// Provides an access to an up to date projection of the carried data.
+    ///
+    /// # Motivation''')]),
 ]
 
